@@ -329,7 +329,10 @@ class Run:
     def _op_put(self, op):
         k, dur = self.keys[op[1]], op[2]
         self.serial += 1
-        val = (op[1], self.serial)
+        # (some stored values ARE None / falsy: a resident entry is resident whatever its value)
+        # (not for DiskCache: its model resolves "maybe still in the front LRU" through what get() returns, and a stored None reads
+        #  like a miss there)
+        val = {3: None, 5: 0, 8: ()}.get(self.serial % 11, (op[1], self.serial)) if self.cls != "Disk" else (op[1], self.serial)
         trig = self.model.trigger(k)
         ctx = trig + self.after_reput() + self.mode
         info = None
